@@ -177,9 +177,19 @@ pub fn name_bytes(key: u32, n: u64, variant: u64) -> Vec<u8> {
         let lower = match variant % 3 { 0 => false, 1 => true, _ => i % 2 == 0 };
         out.push(if lower { letter.to_ascii_lowercase() } else { letter });
     }
-    if key % 4 == 3 && n >= 1 {
+    if key % 8 == 3 && n >= 1 {
         // lone continuation / invalid byte: lossy decoding turns either into U+FFFD
         out[0] = if variant % 2 == 0 { 0xff } else { 0xfe };
+    }
+    if key % 8 == 5 && n >= 3 {
+        // a valid two-byte sequence (E-acute) inside the name: a cut between its bytes must not change the key
+        out[1] = 0xc3;
+        out[2] = 0x89;
+    }
+    if key % 8 == 6 && n >= 3 {
+        // a truncated three-byte sequence at the end (lossy decoding gives one U+FFFD for the pair)
+        out[(n - 2) as usize] = 0xe2;
+        out[(n - 1) as usize] = 0x82;
     }
     out
 }
